@@ -398,9 +398,13 @@ func (stub *stub) Start(ctx context.Context) (retErr error) {
 		return fmt.Errorf("failed to multiplex ttrpc client connection: %w", err)
 	}
 
-	var rpcc *ttrpc.Client
+	var (
+		rpcc    *ttrpc.Client
+		closedC = make(chan struct{})
+	)
 	clientOpts := []ttrpc.ClientOpts{
 		ttrpc.WithOnClose(func() {
+			close(closedC)
 			stub.connClosed(rpcc)
 		}),
 	}
@@ -433,7 +437,12 @@ func (stub *stub) Start(ctx context.Context) (retErr error) {
 	}
 
 	vhook.Point("stub.waitcfg", stub)
-	if err = <-stub.cfgErrC; err != nil {
+	select {
+	case err = <-stub.cfgErrC:
+	case <-closedC:
+		err = errors.New("connection to NRI closed before the plugin got configured")
+	}
+	if err != nil {
 		return err
 	}
 
